@@ -11,8 +11,6 @@ package filterstorage
 
 //@ immutable Default.baseLogger, Default.logger, Default.ruleListsMu, Default.ruleListIdxRefr, Default.cacheManager, Default.clock, Default.errColl, Default.metrics, Default.cacheDir
 
-//@ interface filter.Metrics method SetFilterStatus
-//@   modifies nothing
 //@ interface agdtime.Clock method Now
 //@   modifies nothing
 //@ interface context.Context method Err
